@@ -537,6 +537,15 @@ func genVideoSample(r *runner.Rand, codec string, ap *avcParams, hp *hevcParams,
 		}
 		nals = append(nals, mkSlice(size, i == 0))
 	}
+	if fam == "avc" && sh.Scheme == "cenc" && r.Chance(1, 10) {
+		// data-partitioned slice (14496-10 Table 7-1: nal_unit_type 2, 3, 4 are VCL NAL units too). Only
+		// under cenc, where no slice header has to be understood; B and C carry none.
+		for _, typ := range []int{2, 3, 4} {
+			d := r.Bytes(r.PickInt(60, 128, 129, 144, 300, 500))
+			d[0] = byte(2<<5 | typ)
+			nals = append(nals, NAL{Type: typ, VCL: true, Data: d})
+		}
+	}
 	if r.Chance(1, 5) {
 		t := sei
 		if fam == "hevc" {
